@@ -509,20 +509,20 @@ fn explore_seg(seed: u64, steps: usize) -> Result<(), String> {
     use i_tree::seg::exp::{SegExpCollection, SegRange};
     use i_tree::seg::tree::SegExpTree;
     let mut rng = Rng(seed.wrapping_mul(0x9E3779B97F4A7C15) | 1);
-    let domains: [(i32, i32); 8] = [(0, 31), (-16, 15), (0, 127), (-1000, 2000), (5, 21), (0, 128), (-7, 25), (100, 1124)];
-    let (lo, hi) = domains[(seed % 8) as usize];
-    let mut t = match SegExpTree::<i32, i32, XV>::new(SegRange { min: lo, max: hi }) { Some(t) => t, None => return Err(format!("[C14] new([{},{}]) refused a domain of {} points", lo, hi, hi - lo + 1)) };
-    let len = (hi - lo + 1) as i64;
+    let domains: [(i64, i64); 10] = [(0, 31), (-16, 15), (0, 127), (-1000, 2000), (5, 21), (0, 128), (-7, 25), (100, 1124), (0, (1i64 << 33) + (1i64 << 32) - 1), (-(1i64 << 40), 1i64 << 40)];
+    let (lo, hi) = domains[(seed % 10) as usize];
+    let mut t = match SegExpTree::<i64, i32, XV>::new(SegRange { min: lo, max: hi }) { Some(t) => t, None => return Err(format!("[C14] new([{},{}]) refused a domain of {} points", lo, hi, hi - lo + 1)) };
+    let len = hi - lo + 1;
     let mut scale = 0; while (32i64 << scale) < len { scale += 1; }
-    let bucket = |x: i32| -> i32 { ((x - lo) as i64 >> scale) as i32 };
-    let mut model: Vec<(i32, i32, XV)> = vec![];
+    let bucket = |x: i64| -> i64 { (x - lo) >> scale };
+    let mut model: Vec<(i64, i64, XV)> = vec![];
     let mut time = 0i32;
     let mut hist = format!("domain [{},{}]: ", lo, hi);
     let mut idseq = 0;
     for _ in 0..steps {
         let op = rng.below(10);
         if rng.below(3) == 0 { time += rng.below(3) as i32; }
-        let a = lo + rng.below(len as u64) as i32; let b = lo + rng.below(len as u64) as i32;
+        let a = lo + rng.below(len as u64) as i64; let b = lo + rng.below(len as u64) as i64;
         let (a, b) = if a <= b { (a, b) } else { (b, a) };
         match op {
             0..=3 => {
